@@ -478,7 +478,11 @@ func hookPass(res *vkit.Result) {
 			continue
 		}
 		l := &log{}
+		// plugin names are matched as written: half of them have upper-case letters and a slash
 		name := fmt.Sprintf("shape%d", i)
+		if i%2 == 1 {
+			name = fmt.Sprintf("Verif/Shape-%dX", i)
+		}
 		var defs []any
 		if s.Default {
 			defs = append(defs, defaultFunc(s, l))
